@@ -553,6 +553,17 @@ def main(argv):
                 # /verif/kani/harness while it is in flight
                 hsnap = os.path.join(scratch, 'harness')
                 shutil.copytree(os.path.join(VERIF, 'kani', 'harness'), hsnap)
+                if tier == 'thorough':
+                    # deeper exploration: raise the bounds of the bounded harnesses (the harness text
+                    # is written against the constants, so this is the only edit)
+                    for fn_, subs in props.THOROUGH_BOUNDS.items():
+                        fp = os.path.join(hsnap, fn_)
+                        txt = open(fp).read()
+                        for a_, b_ in subs:
+                            if a_ not in txt:
+                                undecided.append('thorough bound substitution lost: %s' % a_)
+                            txt = txt.replace(a_, b_)
+                        open(fp, 'w').write(txt)
                 copy_repo(os.path.join(scratch, 'repo'), harness_dir=hsnap)
             ncr = max(1, len(by_crate))
             for (crate, _fl), hs in by_crate.items():
@@ -642,7 +653,7 @@ def main(argv):
                                     'kind': h.get('kind', 'bounded'), 'bound': h.get('bound', ''), 'expect': h.get('expect', 'pass'),
                                     'ms': (hr or {}).get('duration_ms', 0), 'note': note, 'covers': h.get('covers', '')})
                 if h.get('kind') == 'bounded':
-                    bounds.append('%s: %s' % (h['name'], h.get('bound', '')))
+                    bounds.append('%s: %s%s' % (h['name'], h.get('bound', ''), (' [thorough tier: ' + props.THOROUGH_NOTE + ']') if tier == 'thorough' and h['name'].startswith(('c05_b', 'c06_b', 'c17_b')) and h['crate'] == 'keyberon' else ''))
                 for fn in h.get('functions', []):
                     s = '%s (kani, in place%s)' % (fn, '' if h.get('kind') == 'complete' else ', bounded')
                     if s not in functions_under_contract:
